@@ -5,7 +5,7 @@
 From Coq Require Import ZArith QArith List Bool Lia.
 From RV Require Import Base.Wire Base.Text Lang.PyAst Lang.PySem Lang.Infer Lang.InferGuard Lang.InferSpec
   Lang.InferComp Lang.Decl Lang.DeclSpec Lang.FnSpec Lang.StmtRef Lang.CtlSpec Gen.InferTables
-  Proofs.InferP Proofs.JoinP Proofs.DeclP Proofs.FnP Proofs.CompP.
+  Lang.Reads Proofs.InferP Proofs.JoinP Proofs.DeclP Proofs.FnP Proofs.CompP Proofs.ReadsP.
 Import ListNotations.
 Open Scope Z_scope.
 
@@ -139,15 +139,26 @@ Proof.
 Qed.
 
 (* ------------------------------------------------------------------ the well-formedness of a block state *)
-Definition sub_tenv (G L : tenv) : Prop := forall x t, tlookup x G = Some t -> tlookup x L = Some t.
+Lemma sub_tyb_true a b : sub_tyb a b = true -> sub_ty a b.
+Proof.
+  unfold sub_tyb. intro H. apply orb_true_iff in H as [H|H].
+  - left. apply ty_eqb_eq. exact H.
+  - destruct a, b; try discriminate H; unfold sub_ty; tauto.
+Qed.
+Lemma sub_ty_refl a : sub_ty a a. Proof. left. reflexivity. Qed.
+Lemma sub_ty_list_r a e : sub_ty a (TList e) -> a = TList e.
+Proof. intros [H|[[_ H]|[[_ H]|[_ H]]]]; [exact H | discriminate H | discriminate H | discriminate H]. Qed.
+Lemma sub_ty_list_l e b : sub_ty (TList e) b -> b = TList e.
+Proof. intros [H|[[H _]|[[H _]|[H _]]]]; [symmetry; exact H | discriminate H | discriminate H | discriminate H]. Qed.
 
+(* L: the declared label of every name of the scope.  A state is well formed when every labelled name carries a label
+   at most its declared one and is declared - at this level or outside - with the C type of its DECLARED label. *)
 Record wf (L : tenv) (outer : list (ident * cty)) (base : list ident) (st : bstate) : Prop := mk_wf {
-  wf_sub : sub_tenv (d_types (st_ctx st)) L;
+  wf_typ : forall x t, tlookup x (d_types (st_ctx st)) = Some t ->
+             exists t0, tlookup x L = Some t0 /\ sub_ty t t0 /\ tlookup x (st_decls st ++ outer) = Some (cpp_type t0);
   wf_lab : forall x, match tlookup x (d_types (st_ctx st)) with
                      | Some _ => tmem x (d_decl (st_ctx st)) = true
                      | None => tmem x (d_decl (st_ctx st)) = false end;
-  wf_decl : forall x t, tlookup x (d_types (st_ctx st)) = Some t ->
-                        tlookup x (st_decls st ++ outer) = Some (cpp_type t);
   wf_outer : forall x c, tlookup x (st_decls st ++ outer) = Some c -> tmem x (d_decl (st_ctx st)) = true;
   wf_fresh : forall x, In x (map fst (st_decls st)) -> tmem x base = false;
   wf_base : forall x, tmem x base = true -> tmem x (d_decl (st_ctx st)) = true
@@ -158,10 +169,9 @@ Lemma wf_child L outer base st p a :
   wf L (st_decls st ++ outer) (d_decl (st_ctx st))
      (mk_bstate (mk_dctx (d_types (st_ctx st)) (d_decl (st_ctx st)) p) [] a).
 Proof.
-  intros [Hs Hl Hd Ho Hf Hb]. constructor; cbn [st_ctx st_decls d_types d_decl app].
-  - exact Hs.
+  intros [Ht Hl Ho Hf Hb]. constructor; cbn [st_ctx st_decls d_types d_decl app].
+  - exact Ht.
   - exact Hl.
-  - exact Hd.
   - exact Ho.
   - intros x [].
   - intros x H; exact H.
@@ -172,20 +182,19 @@ Lemma wf_child_for L outer base st i p a :
   wf (tset L i TInt) ((i, CInt) :: st_decls st ++ outer) (add_name (d_decl (st_ctx st)) i)
      (mk_bstate (mk_dctx (tset (d_types (st_ctx st)) i TInt) (add_name (d_decl (st_ctx st)) i) p) [] a).
 Proof.
-  intros [Hs Hl Hd Ho Hf Hb]. constructor; cbn [st_ctx st_decls d_types d_decl app].
-  - intros x t. rewrite !tlookup_tset. destruct (text_eqb x i); [intro H; exact H | apply Hs].
+  intros [Ht Hl Ho Hf Hb]. constructor; cbn [st_ctx st_decls d_types d_decl app].
+  - intros x t. rewrite !tlookup_tset. cbn [tlookup]. destruct (text_eqb x i).
+    + intro H; inversion H; subst. exists TInt. split; [reflexivity | split; [apply sub_ty_refl | reflexivity]].
+    + apply Ht.
   - intro x. rewrite tlookup_tset, tmem_add_name. destruct (text_eqb x i); [apply orb_true_r|].
     rewrite orb_false_r. apply Hl.
-  - intros x t. rewrite tlookup_tset. cbn [tlookup]. destruct (text_eqb x i).
-    + intro H; inversion H; reflexivity.
-    + apply Hd.
   - intros x c. cbn [tlookup]. rewrite tmem_add_name. destruct (text_eqb x i); [intros _; apply orb_true_r|].
     intro H. rewrite (Ho x c H). reflexivity.
   - intros x [].
   - intros x H; exact H.
 Qed.
 
-(* the common core of every hoist: the names [news] (undeclared so far, labelled as L labels them) become
+(* the common core of every hoist: the names [news] (undeclared so far, with their DECLARED labels) become
    declared at this level *)
 Lemma wf_promote L outer base st G1 decl1 p1 decls1 a1 (news : list (ident * ty)) :
   wf L outer base st ->
@@ -199,17 +208,15 @@ Lemma wf_promote L outer base st G1 decl1 p1 decls1 a1 (news : list (ident * ty)
   (forall x, In x (map fst decls1) -> In x (map fst (st_decls st)) \/ In x (map fst news)) ->
   wf L outer base (mk_bstate (mk_dctx G1 decl1 p1) decls1 a1).
 Proof.
-  intros [Hs Hl Hd Ho Hf Hb] Hnews HG Hdecl Hds Hnames.
+  intros [Ht Hl Ho Hf Hb] Hnews HG Hdecl Hds Hnames.
   constructor; cbn [st_ctx st_decls d_types d_decl].
-  - intros x t. rewrite HG. destruct (tlookup x news) as [t0|] eqn:En.
-    + intro H; inversion H; subst. apply tlookup_In in En. apply Hnews in En. apply En.
-    + apply Hs.
+  - intros x t. rewrite HG, Hds. destruct (tlookup x news) as [t0|] eqn:En.
+    + intro H; inversion H; subst. apply tlookup_In in En. apply Hnews in En.
+      exists t. split; [apply En | split; [apply sub_ty_refl | reflexivity]].
+    + apply Ht.
   - intro x. rewrite HG, Hdecl. destruct (tlookup x news) as [t0|] eqn:En.
     + rewrite (tlookup_some_tmem _ _ _ En). apply orb_true_r.
     + rewrite (tlookup_none_tmem _ _ En), orb_false_r. apply Hl.
-  - intros x t. rewrite HG, Hds. destruct (tlookup x news) as [t0|].
-    + intro H; inversion H; reflexivity.
-    + apply Hd.
   - intros x c. rewrite Hds, Hdecl. destruct (tlookup x news) as [t0|] eqn:En.
     + intros _. rewrite (tlookup_some_tmem _ _ _ En). apply orb_true_r.
     + intro H. rewrite (Ho x c H). reflexivity.
@@ -226,10 +233,9 @@ Lemma wf_ext L outer base st G1 decl1 p1 a1 :
   (forall y, tmem y decl1 = tmem y (d_decl (st_ctx st))) ->
   wf L outer base (mk_bstate (mk_dctx G1 decl1 p1) (st_decls st) a1).
 Proof.
-  intros [Hs Hl Hd Ho Hf Hb] HG Hdc. constructor; cbn [st_ctx st_decls d_types d_decl].
-  - intros x t. rewrite HG. apply Hs.
+  intros [Ht Hl Ho Hf Hb] HG Hdc. constructor; cbn [st_ctx st_decls d_types d_decl].
+  - intros x t. rewrite HG. apply Ht.
   - intro x. rewrite HG, Hdc. apply Hl.
-  - intros x t. rewrite HG. apply Hd.
   - intros x c H. rewrite Hdc. exact (Ho x c H).
   - exact Hf.
   - intros x H. rewrite Hdc. exact (Hb x H).
@@ -242,26 +248,40 @@ Proof.
   destruct (tlookup x (d_types (st_ctx st))) as [t|]; [exists t; reflexivity|]. rewrite H in Hm. discriminate.
 Qed.
 
-Lemma tlookup_tset_same G x t y : tlookup x G = Some t -> tlookup y (tset G x t) = tlookup y G.
+(* a declared name gets another label, still at most its declared one *)
+Lemma wf_relabel L outer base st x t t0 p1 a1 :
+  wf L outer base st -> tmem x (d_decl (st_ctx st)) = true -> tlookup x L = Some t0 -> sub_ty t t0 ->
+  wf L outer base (mk_bstate (mk_dctx (tset (d_types (st_ctx st)) x t) (d_decl (st_ctx st)) p1) (st_decls st) a1).
 Proof.
-  intro H. rewrite tlookup_tset. destruct (text_eqb y x) eqn:E; [|reflexivity].
-  apply text_eqb_eq in E. subst. symmetry. exact H.
+  intros Hw Hd HL Hs. destruct (wf_declared_labelled _ _ _ _ _ Hw Hd) as [told Hold].
+  destruct Hw as [Ht Hl Ho Hf Hb]. constructor; cbn [st_ctx st_decls d_types d_decl].
+  - intros y u. rewrite tlookup_tset. destruct (text_eqb y x) eqn:E.
+    + apply text_eqb_eq in E. subst y. intro H; inversion H; subst u.
+      destruct (Ht x told Hold) as (t1 & H1 & _ & H3). rewrite HL in H1. inversion H1; subst t1.
+      exists t0. split; [exact HL | split; [exact Hs | exact H3]].
+    + apply Ht.
+  - intro y. rewrite tlookup_tset. destruct (text_eqb y x) eqn:E.
+    + apply text_eqb_eq in E. subst y. exact Hd.
+    + apply Hl.
+  - exact Ho.
+  - exact Hf.
+  - exact Hb.
 Qed.
 
-(* a store of label t into x, where L labels x with t: declared if new *)
+(* a store of label t into x: declared if new *)
 Lemma wf_store L outer base st x t p1 a1 :
-  wf L outer base st -> tlookup x L = Some t ->
+  wf L outer base st -> store_ok L (tmem x (d_decl (st_ctx st))) x t = true ->
   wf L outer base
      (if tmem x (d_decl (st_ctx st))
       then mk_bstate (mk_dctx (tset (d_types (st_ctx st)) x t) (d_decl (st_ctx st)) p1) (st_decls st) a1
       else mk_bstate (mk_dctx (tset (d_types (st_ctx st)) x t) (d_decl (st_ctx st) ++ [x]) p1)
                      (st_decls st ++ [(x, cpp_type t)]) a1).
 Proof.
-  intros Hw HL. destruct (tmem x (d_decl (st_ctx st))) eqn:Ed.
-  - destruct (wf_declared_labelled _ _ _ _ _ Hw Ed) as [t0 Ht0].
-    assert (t0 = t) by (pose proof (wf_sub _ _ _ _ Hw x t0 Ht0) as H; rewrite HL in H; inversion H; reflexivity).
-    subst t0. apply wf_ext; [exact Hw | intro y; apply tlookup_tset_same; exact Ht0 | reflexivity].
-  - apply (wf_promote L outer base st _ _ _ _ _ [(x, t)] Hw).
+  intros Hw Hok. unfold store_ok in Hok. destruct (tlookup x L) as [t0|] eqn:HL; [|discriminate].
+  destruct (tmem x (d_decl (st_ctx st))) eqn:Ed.
+  - apply (wf_relabel L outer base st x t t0); [exact Hw | exact Ed | exact HL | apply sub_tyb_true; exact Hok].
+  - apply ty_eqb_eq in Hok. subst t0.
+    apply (wf_promote L outer base st _ _ _ _ _ [(x, t)] Hw).
     + intros y u [H|[]]. inversion H; subst. split; assumption.
     + intro y. rewrite tlookup_tset. cbn [tlookup]. destruct (text_eqb y x); reflexivity.
     + intro y. rewrite DeclP.tmem_app. cbn [map fst tmem]. rewrite orb_false_r. reflexivity.
@@ -275,6 +295,10 @@ Proof.
     + intro y. rewrite map_app, in_app_iff. cbn [map fst]. tauto.
 Qed.
 
+Lemma store_ok_exact L b x t : tlookup x L = Some t -> store_ok L b x t = true.
+Proof.
+  intro H. unfold store_ok. rewrite H. destruct b; [unfold sub_tyb; rewrite ty_eqb_refl; reflexivity | apply ty_eqb_refl].
+Qed.
 
 Lemma cty_eqb_true a : forall b, cty_eqb a b = true -> a = b.
 Proof.
@@ -324,41 +348,40 @@ Lemma run_stmt_for (S : Type) call C (s : S) st i body :
     end.
 Proof. reflexivity. Qed.
 
-(* what a loop hoists: the names the body declared, as L labels them *)
-Lemma wf_loop_promote L L1 outer outerc base st child basenames a1 :
+(* what a loop hoists: the names the body declared, which end the body with their declared labels *)
+Lemma lab_is_true L x t : lab_is L x t = true -> tlookup x L = Some t.
+Proof. unfold lab_is. destruct (tlookup x L) as [t0|]; [|discriminate]. intro H. apply ty_eqb_eq in H. subst. reflexivity. Qed.
+
+Lemma wf_loop_promote L outer base st (child : dctx) basenames a1 :
   wf L outer base st ->
-  wf L1 outerc basenames child ->
-  (forall x, tmem x basenames = false -> tmem x (d_decl (st_ctx st)) = false /\ tlookup x L1 = tlookup x L) ->
-  promo_ok (st_ctx st) (st_ctx child) basenames = true ->
-  wf L outer base (loop_promote (st_ctx st) (st_ctx child) basenames st a1).
+  (forall x, tmem x basenames = false -> tmem x (d_decl (st_ctx st)) = false) ->
+  promo_ok L (st_ctx st) child basenames = true ->
+  wf L outer base (loop_promote (st_ctx st) child basenames st a1).
 Proof.
-  intros Hw Hc Hbn Hpo. unfold loop_promote.
-  destruct (new_names basenames (st_ctx child)) as [|p0 prest] eqn:Ep.
+  intros Hw Hbn Hpo. unfold loop_promote.
+  destruct (new_names basenames child) as [|p0 prest] eqn:Ep.
   - apply wf_ext; [exact Hw | reflexivity | reflexivity].
-  - rewrite <- Ep. set (promoted := new_names basenames (st_ctx child)) in *.
-    set (f := fun x => tget (d_types (st_ctx child)) x).
+  - rewrite <- Ep. set (promoted := new_names basenames child) in *.
+    set (f := fun x => tget (d_types child) x).
+    unfold promo_ok in Hpo. rewrite forallb_forall in Hpo. fold promoted in Hpo.
     assert (Hprom : forall x, tmem x promoted = true ->
               tmem x (d_decl (st_ctx st)) = false /\ tlookup x L = Some (f x)).
-    { intros x Hx. unfold promoted in Hx. rewrite new_names_spec in Hx. apply andb_true_iff in Hx as [Hd Hb].
-      apply negb_true_iff in Hb. destruct (Hbn x Hb) as [Hnd HL]. split; [exact Hnd|].
-      destruct (wf_declared_labelled _ _ _ _ _ Hc Hd) as [t Ht].
-      rewrite <- HL. unfold f, tget. rewrite Ht. apply (wf_sub _ _ _ _ Hc). exact Ht. }
+    { intros x Hx. pose proof (Hpo x (proj1 (tmem_In x promoted) Hx)) as H. apply andb_true_iff in H as [H _].
+      unfold promoted in Hx. rewrite new_names_spec in Hx. apply andb_true_iff in Hx as [_ Hb].
+      apply negb_true_iff in Hb. split; [apply Hbn; exact Hb | apply lab_is_true; exact H]. }
     apply (wf_promote2 L outer base st _ _ _ _ _ (map (fun x => (x, f x)) promoted) Hw).
     + intros x t Hin. apply in_map_iff in Hin as (y & Heq & Hin). inversion Heq; subst.
       apply Hprom. apply tmem_In. exact Hin.
     + intro x. rewrite tlookup_fold_tset, tlookup_map_key. destruct (tmem x promoted); reflexivity.
     + intro x. rewrite tmem_add_names, map_fst_keyed. reflexivity.
     + intro x. rewrite !tlookup_map_key. destruct (tmem x promoted) eqn:Ex; [|reflexivity]. cbn [option_map]. f_equal.
-      unfold promo_ok in Hpo. rewrite forallb_forall in Hpo.
-      assert (Hin : In x (new_names basenames (st_ctx child))) by (apply tmem_In; exact Ex).
-      specialize (Hpo x Hin). revert Hpo.
+      pose proof (Hpo x (proj1 (tmem_In x promoted) Ex)) as H. apply andb_true_iff in H as [_ H]. revert H.
       match goal with |- context [match tlookup x ?D with Some c => cty_eqb c _ | None => true end] =>
-        destruct (tlookup x D) as [c|] end; intro Hpo.
-      * apply cty_eqb_true in Hpo. exact Hpo.
+        destruct (tlookup x D) as [c|] end; intro H.
+      * apply cty_eqb_true in H. exact H.
       * unfold tget at 1. rewrite tlookup_fold_tset, Ex. reflexivity.
     + intro x. rewrite !map_fst_keyed. intro H; exact H.
 Qed.
-
 
 (* ------------------------------------------------------------------ (S): values against the final label table *)
 Definition env_lab (L : tenv) (rho : env) : Prop :=
@@ -462,7 +485,7 @@ Lemma wf_same_ctx0 L outer base st st' :
   wf L outer base st -> d_types (st_ctx st') = d_types (st_ctx st) -> d_decl (st_ctx st') = d_decl (st_ctx st) ->
   st_decls st' = st_decls st -> wf L outer base st'.
 Proof.
-  intros [Hs Hl Hd Ho Hf Hb] HG Hdc Hds. constructor; rewrite ?HG, ?Hdc, ?Hds; assumption.
+  intros [Ht Hl Ho Hf Hb] HG Hdc Hds. constructor; rewrite ?HG, ?Hdc, ?Hds; assumption.
 Qed.
 
 Definition tuple_step_fn := fun (acc0 : list ident * list (ident * cty)) (xt : ident * ty) =>
@@ -479,7 +502,7 @@ Lemma tuple_fold_wf L outer base ds0 p a : forall xts G decl nd,
 Proof.
   induction xts as [|[x t] r IH]; intros G decl nd Hw HL; [exact Hw|].
   cbn [fold_left]. unfold tuple_step_fn at 2 4. cbn [fst snd].
-  pose proof (wf_store L outer base _ x t p a Hw (HL x t (or_introl eq_refl))) as Hw1.
+  pose proof (wf_store L outer base _ x t p a Hw (store_ok_exact L _ x t (HL x t (or_introl eq_refl)))) as Hw1.
   cbn [st_ctx st_decls d_types d_decl] in Hw1.
   destruct (tmem x decl).
   - apply IH; [exact Hw1 | intros y u Hy; apply HL; right; exact Hy].
@@ -534,50 +557,51 @@ Section Ctl.
     repeat split; [exact Hi | symmetry; exact Ht | exact HG | exact Hd].
   Qed.
 
-  Lemma expr_ok_parts L G e t : expr_ok C F A L G e t = true ->
-    guard F A C G e = true /\ guard F A C L e = true /\ ety F A C G e = t /\ ety F A C L e = t.
-  Proof.
-    unfold expr_ok. intro H. apply andb_true_iff in H as [H H4]. apply andb_true_iff in H as [H H3].
-    apply andb_true_iff in H as [H _]. apply andb_true_iff in H as [H1 H2].
-    apply ty_eqb_eq in H3. apply ty_eqb_eq in H4. repeat split; assumption.
-  Qed.
   Lemma typed_some G e : typed C F A G e = true -> exists G1, infer_s F A C G e = Some (ety F A C G e, G1).
   Proof.
     unfold typed, ety. destruct (infer_s F A C G e) as [[t G1]|]; [|discriminate]. intros _. exists G1. reflexivity.
   Qed.
-  Lemma expr_ok_typed L G e t : expr_ok C F A L G e t = true -> typed C F A L e = true.
+  Lemma expr_ok_guard L G e : expr_ok C F A L G e = true -> guard F A C G e = true /\ typed C F A G e = true.
   Proof.
-    unfold expr_ok. intro H. apply andb_true_iff in H as [H _]. apply andb_true_iff in H as [H _].
-    apply andb_true_iff in H as [_ H]. exact H.
+    unfold expr_ok. intro H. apply andb_true_iff in H as [H _]. apply andb_true_iff in H as [H1 H2]. split; assumption.
   Qed.
 
-  Lemma list_clash_false (t : ty) (b : bool) :
-    match Some t with
-    | Some (TList oe) => b && (negb (is_list_ty t) || negb (ty_eqb oe (list_elem t)))
+  Lemma store_ok_sub L b x t : store_ok L b x t = true -> exists t0, tlookup x L = Some t0 /\ sub_ty t t0.
+  Proof.
+    unfold store_ok. destruct (tlookup x L) as [t0|]; [|discriminate]. intro H. exists t0. split; [reflexivity|].
+    destruct b; [apply sub_tyb_true; exact H | apply ty_eqb_eq in H; subst; apply sub_ty_refl].
+  Qed.
+
+  (* the list-variable check of _handle_assignment_ast never fires inside the guard *)
+  Lemma clash_false L outer base st x t :
+    wf L outer base st -> store_ok L (tmem x (d_decl (st_ctx st))) x t = true ->
+    match tlookup x (d_types (st_ctx st)) with
+    | Some (TList oe) => tmem x (d_decl (st_ctx st)) && (negb (is_list_ty t) || negb (ty_eqb oe (list_elem t)))
     | _ => false end = false.
-  Proof. destruct t; try reflexivity. cbn. rewrite ty_eqb_refl. destruct b; reflexivity. Qed.
+  Proof.
+    intros Hw Hok. destruct (tlookup x (d_types (st_ctx st))) as [told|] eqn:E0; [|reflexivity].
+    destruct told; try reflexivity.
+    pose proof (wf_lab _ _ _ _ Hw x) as Hl. rewrite E0 in Hl. rewrite Hl in Hok |- *.
+    destruct (wf_typ _ _ _ _ Hw x _ E0) as (t0 & HL & Hs0 & _).
+    apply sub_ty_list_l in Hs0. subst t0.
+    unfold store_ok in Hok. rewrite HL in Hok. apply sub_tyb_true in Hok. apply sub_ty_list_r in Hok. subst t.
+    cbn. rewrite ty_eqb_refl. reflexivity.
+  Qed.
 
   (* ---- x = e *)
   Lemma assign_step L outer base s st x e s1 st1 :
     Inv s -> wf L outer base st ->
-    assign_ok C F A L (d_types (st_ctx st)) x e = true ->
+    assign_ok C F A L (st_ctx st) x e = true ->
     do_assign S call C s st x e = Some (s1, st1) ->
     Inv s1 /\ wf L outer base st1 /\ a_rets (st_acc st1) = a_rets (st_acc st) /\ a_fn (st_acc st1) = a_fn (st_acc st).
   Proof.
-    intros Hs Hw Hok Hrun. unfold assign_ok in Hok.
-    destruct (tlookup x L) as [t|] eqn:HL; [|discriminate].
-    destruct (expr_ok_parts _ _ _ _ Hok) as (Hg & _ & Ht & _).
+    intros Hs Hw Hok Hrun. unfold assign_ok in Hok. apply andb_true_iff in Hok as [Hex Hst].
+    destruct (expr_ok_guard _ _ _ Hex) as [Hg _].
     unfold do_assign in Hrun. pose proof (infer_d_guarded s (st_ctx st) e Hs Hg) as Hi.
     destruct (infer_d S call C s (st_ctx st) e) as [[[t1 c1] s2]|]; [|discriminate].
-    destruct Hi as (Hi & Ht1 & HG & Hd). rewrite Ht in Ht1. subst t1.
-    rewrite HG, Hd in Hrun.
-    assert (Hcl : match tlookup x (d_types (st_ctx st)) with
-                  | Some (TList oe) => tmem x (d_decl (st_ctx st)) && (negb (is_list_ty t) || negb (ty_eqb oe (list_elem t)))
-                  | _ => false end = false).
-    { destruct (tlookup x (d_types (st_ctx st))) as [t0|] eqn:E0; [|reflexivity].
-      pose proof (wf_sub _ _ _ _ Hw x t0 E0) as H. rewrite HL in H. inversion H; subst t0. apply list_clash_false. }
-    rewrite Hcl in Hrun.
-    pose proof (wf_store L outer base st x t (d_promo c1) (add_label (st_acc st) x t) Hw HL) as Hw1.
+    destruct Hi as (Hi & Ht1 & HG & Hd). subst t1.
+    rewrite HG, Hd in Hrun. rewrite (clash_false L outer base st x _ Hw Hst) in Hrun.
+    pose proof (wf_store L outer base st x _ (d_promo c1) (add_label (st_acc st) x (ety F A C (d_types (st_ctx st)) e)) Hw Hst) as Hw1.
     destruct (tmem x (d_decl (st_ctx st))); inversion Hrun; subst s1 st1; (split; [exact Hi | split; [exact Hw1 | split; reflexivity]]).
   Qed.
 
@@ -585,13 +609,12 @@ Section Ctl.
   Lemma aug_step L outer base s st x op e s1 st1 :
     Inv s -> wf L outer base st ->
     negb (is_matmult op) = true -> tmem x (d_decl (st_ctx st)) = true ->
-    assign_ok C F A L (d_types (st_ctx st)) x (EBin op (EName x) e) = true ->
+    assign_ok C F A L (st_ctx st) x (EBin op (EName x) e) = true ->
     do_aug S call C s st x op e = Some (s1, st1) ->
     Inv s1 /\ wf L outer base st1 /\ a_rets (st_acc st1) = a_rets (st_acc st) /\ a_fn (st_acc st1) = a_fn (st_acc st).
   Proof.
-    intros Hs Hw Hop Hdecl Hok Hrun. unfold assign_ok in Hok.
-    destruct (tlookup x L) as [t|] eqn:HL; [|discriminate].
-    destruct (expr_ok_parts _ _ _ _ Hok) as (Hg & _ & Ht & _).
+    intros Hs Hw Hop Hdecl Hok Hrun. unfold assign_ok in Hok. apply andb_true_iff in Hok as [Hex Hst].
+    destruct (expr_ok_guard _ _ _ Hex) as [Hg _].
     assert (Hrun' : match infer_d S call C s (st_ctx st) (EBin op (EName x) e) with
                     | None => None
                     | Some (t0, c1, s2) =>
@@ -601,8 +624,8 @@ Section Ctl.
     { destruct op; try exact Hrun. discriminate Hop. }
     clear Hrun. pose proof (infer_d_guarded s (st_ctx st) _ Hs Hg) as Hi.
     destruct (infer_d S call C s (st_ctx st) (EBin op (EName x) e)) as [[[t1 c1] s2]|]; [|discriminate].
-    destruct Hi as (Hi & Ht1 & HG & Hd). rewrite Ht in Ht1. subst t1. rewrite HG, Hd in Hrun'.
-    pose proof (wf_store L outer base st x t (d_promo c1) (add_label (st_acc st) x t) Hw HL) as Hw1.
+    destruct Hi as (Hi & Ht1 & HG & Hd). subst t1. rewrite HG, Hd in Hrun'.
+    pose proof (wf_store L outer base st x _ (d_promo c1) (add_label (st_acc st) x (ety F A C (d_types (st_ctx st)) (EBin op (EName x) e))) Hw Hst) as Hw1.
     rewrite Hdecl in Hw1. inversion Hrun'; subst s1 st1.
     split; [exact Hi | split; [exact Hw1 | split; reflexivity]].
   Qed.
@@ -629,32 +652,25 @@ Section Ctl.
 
   Lemma assignr_step L outer base s st x r s1 st1 :
     Inv s -> wf L outer base st ->
-    assignr_ok C F A L (d_types (st_ctx st)) x r = true ->
+    assignr_ok C F A L (st_ctx st) x r = true ->
     do_assign_r S call C s st x r = Some (s1, st1) ->
     Inv s1 /\ wf L outer base st1 /\ a_rets (st_acc st1) = a_rets (st_acc st) /\ a_fn (st_acc st1) = a_fn (st_acc st).
   Proof.
     intros Hs Hw Hok Hrun. unfold assignr_ok in Hok.
-    destruct (tlookup x L) as [t|] eqn:HL; [|discriminate].
-    apply andb_true_iff in Hok as [Hok _]. apply andb_true_iff in Hok as [Hok Ht].
-    apply andb_true_iff in Hok as [Hok _]. apply andb_true_iff in Hok as [Hg _]. apply ty_eqb_eq in Ht.
+    apply andb_true_iff in Hok as [Hok Hst]. apply andb_true_iff in Hok as [Hok _].
+    apply andb_true_iff in Hok as [Hok _]. apply andb_true_iff in Hok as [Hg _].
     unfold do_assign_r, infer_rd in Hrun.
     pose proof (infer_rhs_sim (d_decl (st_ctx st)) r s (d_promo (st_ctx st)) (d_types (st_ctx st)) Hs) as Hi.
     destruct (infer_rhs (S * option pmap) (call (d_decl (st_ctx st))) C (s, d_promo (st_ctx st)) (d_types (st_ctx st)) r)
       as [[[t1 G1] [s2 p2]]|]; [|discriminate].
     destruct Hi as [Hi E]. cbn [fst] in Hi.
     pose proof (rhs_frame F A C r _ _ _ (rhs_guard_pure F A C r _ Hg) E) as HG. subst G1.
-    assert (t1 = t) by (unfold rty in Ht; rewrite E in Ht; exact Ht). subst t1.
-    cbn [d_types d_decl d_promo] in Hrun.
-    assert (Hcl : match tlookup x (d_types (st_ctx st)) with
-                  | Some (TList oe) => tmem x (d_decl (st_ctx st)) && (negb (is_list_ty t) || negb (ty_eqb oe (list_elem t)))
-                  | _ => false end = false).
-    { destruct (tlookup x (d_types (st_ctx st))) as [t0|] eqn:E0; [|reflexivity].
-      pose proof (wf_sub _ _ _ _ Hw x t0 E0) as H. rewrite HL in H. inversion H; subst t0. apply list_clash_false. }
-    rewrite Hcl in Hrun.
-    pose proof (wf_store L outer base st x t p2 (add_label (st_acc st) x t) Hw HL) as Hw1.
+    assert (Ht1 : rty C F A (d_types (st_ctx st)) r = t1) by (unfold rty; rewrite E; reflexivity).
+    rewrite Ht1 in Hst.
+    cbn [d_types d_decl d_promo] in Hrun. rewrite (clash_false L outer base st x t1 Hw Hst) in Hrun.
+    pose proof (wf_store L outer base st x t1 p2 (add_label (st_acc st) x t1) Hw Hst) as Hw1.
     destruct (tmem x (d_decl (st_ctx st))); inversion Hrun; subst s1 st1; (split; [exact Hi | split; [exact Hw1 | split; reflexivity]]).
   Qed.
-
 
   (* ---- x1, x2, ... = e1, e2, ... *)
   Lemma infer_ds_guarded : forall es s c, Inv s ->
@@ -677,7 +693,8 @@ Section Ctl.
   Qed.
 
   Definition tuple_ok (L G : tenv) (xs : list ident) (es : list pexpr) : bool :=
-    Nat.eqb (length xs) (length es) && forallb (fun xe => assign_ok C F A L G (fst xe) (snd xe)) (combine xs es).
+    Nat.eqb (length xs) (length es) &&
+    forallb (fun xe => expr_ok C F A L G (snd xe) && lab_is L (fst xe) (ety F A C G (snd xe))) (combine xs es).
 
   Lemma tuple_step glob L outer base s st xs es s1 st1 :
     Inv s -> wf L outer base st ->
@@ -697,15 +714,14 @@ Section Ctl.
         - destruct n as [|n]; cbn in Hn.
           + inversion Hn; subst. exists x. left; reflexivity.
           + destruct (IH xs ltac:(lia) n Hn) as [y Hy]. exists y. right; exact Hy. }
-      destruct Hx as [x Hx]. specialize (Hall _ Hx). cbn [fst snd] in Hall. unfold assign_ok in Hall.
-      destruct (tlookup x L) as [t0|]; [|discriminate]. destruct (expr_ok_parts _ _ _ _ Hall) as (H1 & _). exact H1. }
+      destruct Hx as [x Hx]. specialize (Hall _ Hx). cbn [fst snd] in Hall. apply andb_true_iff in Hall as [Hall _].
+      apply (expr_ok_guard _ _ _ Hall). }
     pose proof (infer_ds_guarded es s (st_ctx st) Hs Hg) as Hi.
     destruct (infer_ds S call C s (st_ctx st) es) as [[[ts c1] s2]|]; [|discriminate].
     destruct Hi as (Hs2 & Hts & HG & Hd). rewrite HG, Hd in Hrun.
     assert (HL : forall x t, In (x, t) (combine xs ts) -> tlookup x L = Some t).
     { intros x t Hin. rewrite Hts in Hin. apply combine_map_in in Hin as (e & Hin & ->).
-      specialize (Hall _ Hin). cbn [fst snd] in Hall. unfold assign_ok in Hall.
-      destruct (tlookup x L) as [t0|]; [|discriminate]. f_equal. destruct (expr_ok_parts _ _ _ _ Hall) as (_ & _ & H3 & _). symmetry. exact H3. }
+      specialize (Hall _ Hin). cbn [fst snd] in Hall. apply andb_true_iff in Hall as [_ Hall]. apply lab_is_true. exact Hall. }
     assert (Hlts : length xs = length ts) by (rewrite Hts, map_length; exact Hlen).
     destruct (forallb (fun x => negb (tmem x (d_decl (st_ctx st)))) xs && glob) eqn:Eg.
     - inversion Hrun; subst s1 st1. clear Hrun. cbn [st_acc a_rets a_fn].
@@ -746,8 +762,8 @@ Section Ctl.
         - destruct n as [|n]; cbn in Hn.
           + inversion Hn; subst. exists x. left; reflexivity.
           + destruct (IH xs ltac:(lia) n Hn) as [y Hy]. exists y. right; exact Hy. }
-      destruct Hx as [x Hx]. specialize (Hall _ Hx). cbn [fst snd] in Hall. unfold assign_ok in Hall.
-      destruct (tlookup x L) as [t0|]; [|discriminate]. destruct (expr_ok_parts _ _ _ _ Hall) as (H1 & _). exact H1. }
+      destruct Hx as [x Hx]. specialize (Hall _ Hx). cbn [fst snd] in Hall. apply andb_true_iff in Hall as [Hall _].
+      apply (expr_ok_guard _ _ _ Hall). }
     pose proof (infer_ds_guarded es s (st_ctx st) Hs Hg) as Hi.
     destruct (infer_ds S call C s (st_ctx st) es) as [[[ts c1] s2]|]; [|discriminate].
     destruct Hi as (_ & Hts & _ & _). rewrite andb_false_r in Hrun.
@@ -756,32 +772,21 @@ Section Ctl.
     subst ts. clear - Hlen Hall. revert es Hlen Hall. induction xs as [|x xr IH]; intros [|e er] Hlen Hall; cbn in Hlen; try discriminate.
     - constructor.
     - cbn [map]. constructor.
-      + specialize (Hall (x, e) (or_introl eq_refl)). cbn [fst snd] in Hall. unfold assign_ok in Hall.
-        destruct (tlookup x L) as [t0|]; [|discriminate]. f_equal. destruct (expr_ok_parts _ _ _ _ Hall) as (_ & _ & H3 & _). symmetry. exact H3.
+      + specialize (Hall (x, e) (or_introl eq_refl)). cbn [fst snd] in Hall. apply andb_true_iff in Hall as [_ Hall].
+        apply lab_is_true. exact Hall.
       + apply IH; [lia|]. intros xe Hin. apply Hall. right. exact Hin.
   Qed.
 
   (* ---- return e *)
-  Lemma ret_ok_parts L G e : ret_ok C F A L G e = true ->
-    guard F A C G e = true /\ guard F A C L e = true /\ scalar (ety F A C L e) = true /\ ety F A C G e = ety F A C L e.
-  Proof.
-    unfold ret_ok. intro H. apply andb_true_iff in H as [H H4]. apply andb_true_iff in H as [H H3].
-    apply andb_true_iff in H as [H _]. apply andb_true_iff in H as [H1 H2]. apply ty_eqb_eq in H4. repeat split; assumption.
-  Qed.
-  Lemma ret_ok_typed L G e : ret_ok C F A L G e = true -> typed C F A L e = true.
-  Proof.
-    unfold ret_ok. intro H. apply andb_true_iff in H as [H _]. apply andb_true_iff in H as [H _].
-    apply andb_true_iff in H as [_ H]. exact H.
-  Qed.
-
   Lemma return_step_gen L outer base s st e s1 st1 :
     Inv s -> wf L outer base st ->
     ret_ok C F A L (d_types (st_ctx st)) e = true ->
     do_return S call C s st (Some e) = Some (s1, st1) ->
-    Inv s1 /\ wf L outer base st1 /\ a_rets (st_acc st1) = a_rets (st_acc st) ++ [ety F A C L e] /\
+    Inv s1 /\ wf L outer base st1 /\ a_rets (st_acc st1) = a_rets (st_acc st) ++ [ety F A C (d_types (st_ctx st)) e] /\
     a_fn (st_acc st1) = a_fn (st_acc st).
   Proof.
-    intros Hs Hw Hok Hrun. destruct (ret_ok_parts _ _ _ Hok) as (Hg & _ & _ & Ht).
+    intros Hs Hw Hok Hrun. unfold ret_ok in Hok. apply andb_true_iff in Hok as [Hex _].
+    destruct (expr_ok_guard _ _ _ Hex) as [Hg _].
     unfold do_return in Hrun. destruct (negb (a_fn (st_acc st))); [discriminate|].
     pose proof (infer_d_guarded s (st_ctx st) e Hs Hg) as Hi.
     destruct (infer_d S call C s (st_ctx st) e) as [[[t1 c1] s2]|]; [|discriminate].
@@ -789,7 +794,7 @@ Section Ctl.
     split; [exact Hi|]. split.
     - destruct c1 as [G1 d1 p1]. cbn [d_types d_decl] in HG, Hd. subst G1 d1.
       apply wf_ext; [exact Hw | reflexivity | reflexivity].
-    - split; [rewrite Ht1, Ht; reflexivity | reflexivity].
+    - split; [rewrite Ht1; reflexivity | reflexivity].
   Qed.
 
   (* ------------------------------------------------------------------ (M): the bookkeeping keeps the state well formed *)
@@ -825,13 +830,17 @@ Section Ctl.
   Lemma gd_stmt_if L s st brs els :
     gds L s st (SIf brs els) =
       (gdbrs L s (st_ctx st) (d_promo (st_ctx st)) (st_acc st) brs &&
-       match els with
-       | ONone => true
-       | OSome b =>
-           match run_brs s (st_ctx st) (d_promo (st_ctx st)) (st_acc st) brs with
-           | None => true
-           | Some (s1, _, p1, a1) =>
-               gdb L s1 (mk_bstate (mk_dctx (d_types (st_ctx st)) (d_decl (st_ctx st)) p1) [] a1) b
+       match run_brs s (st_ctx st) (d_promo (st_ctx st)) (st_acc st) brs with
+       | None => true
+       | Some (s1, kids, p1, a1) =>
+           match els with
+           | ONone => hoist_ok L (d_decl (st_ctx st)) kids
+           | OSome b =>
+               gdb L s1 (mk_bstate (mk_dctx (d_types (st_ctx st)) (d_decl (st_ctx st)) p1) [] a1) b &&
+               match run_b s1 (mk_bstate (mk_dctx (d_types (st_ctx st)) (d_decl (st_ctx st)) p1) [] a1) b with
+               | None => true
+               | Some (_, stc) => hoist_ok L (d_decl (st_ctx st)) (kids ++ [st_ctx stc])
+               end
            end
        end).
   Proof. reflexivity. Qed.
@@ -851,7 +860,7 @@ Section Ctl.
       (gdb L s (mk_bstate (mk_dctx (d_types (st_ctx st)) (d_decl (st_ctx st)) (d_promo (st_ctx st))) [] (st_acc st)) body &&
        match run_b s (mk_bstate (mk_dctx (d_types (st_ctx st)) (d_decl (st_ctx st)) (d_promo (st_ctx st))) [] (st_acc st)) body with
        | None => true
-       | Some (_, stc) => promo_ok (st_ctx st) (st_ctx stc) (d_decl (st_ctx st))
+       | Some (_, stc) => promo_ok L (st_ctx st) (st_ctx stc) (d_decl (st_ctx st))
        end).
   Proof. reflexivity. Qed.
   Lemma gd_stmt_for L s st i body :
@@ -859,14 +868,14 @@ Section Ctl.
       (gdb (tset L i TInt) s (mk_bstate (mk_dctx (tset (d_types (st_ctx st)) i TInt) (add_name (d_decl (st_ctx st)) i) (d_promo (st_ctx st))) [] (st_acc st)) body &&
        match run_b s (mk_bstate (mk_dctx (tset (d_types (st_ctx st)) i TInt) (add_name (d_decl (st_ctx st)) i) (d_promo (st_ctx st))) [] (st_acc st)) body with
        | None => true
-       | Some (_, stc) => promo_ok (st_ctx st) (st_ctx stc) (add_name (d_decl (st_ctx st)) i)
+       | Some (_, stc) => promo_ok L (st_ctx st) (st_ctx stc) (add_name (d_decl (st_ctx st)) i)
        end).
   Proof. reflexivity. Qed.
 
-  (* the hoist of an if / elif / else, given well-formed children *)
+  (* the hoist of an if / elif / else: every hoisted name ends its branch with its declared label *)
   Lemma wf_if_promote L outer base st kids2 p2 a2 :
     wf L outer base st ->
-    (forall kid, In kid kids2 -> exists stc, st_ctx stc = kid /\ wf L (st_decls st ++ outer) (d_decl (st_ctx st)) stc) ->
+    hoist_ok L (d_decl (st_ctx st)) kids2 = true ->
     wf L outer base
       (match promote_collect (d_decl (st_ctx st)) kids2 [] with
        | [] => mk_bstate (mk_dctx (d_types (st_ctx st)) (d_decl (st_ctx st)) p2) (st_decls st) a2
@@ -879,16 +888,14 @@ Section Ctl.
                      (st_decls st ++ map (fun xt => (fst xt, cpp_type (snd xt))) order) a2
        end).
   Proof.
-    intros Hw Hkids.
+    intros Hw Hho.
     pose proof (promote_collect_nodup (d_decl (st_ctx st)) kids2 [] (NoDup_nil _)) as Hnd.
     assert (Hord : forall x t, In (x, t) (promote_collect (d_decl (st_ctx st)) kids2 []) ->
               tmem x (d_decl (st_ctx st)) = false /\ tlookup x L = Some t).
-    { intros x t Hin. apply promote_collect_in in Hin. destruct Hin as [[]|(kid & Hk & Hn & Ht)].
-      destruct (Hkids kid Hk) as (stc & <- & Hc).
-      rewrite new_names_spec in Hn. apply andb_true_iff in Hn as [Hd Hb]. apply negb_true_iff in Hb.
-      split; [exact Hb|].
-      destruct (wf_declared_labelled _ _ _ _ _ Hc Hd) as [t' Ht'].
-      subst t. unfold tget. rewrite Ht'. apply (wf_sub _ _ _ _ Hc). exact Ht'. }
+    { intros x t Hin. unfold hoist_ok in Hho. rewrite forallb_forall in Hho.
+      split; [|apply lab_is_true; exact (Hho _ Hin)].
+      apply promote_collect_in in Hin. destruct Hin as [[]|(kid & Hk & Hn & Ht)].
+      rewrite new_names_spec in Hn. apply andb_true_iff in Hn as [_ Hb]. apply negb_true_iff in Hb. exact Hb. }
     destruct (promote_collect (d_decl (st_ctx st)) kids2 []) as [|o0 orest] eqn:Eo.
     - apply wf_ext; [exact Hw | reflexivity | reflexivity].
     - cbv zeta. apply (wf_promote2 L outer base st _ _ _ _ _ (o0 :: orest) Hw Hord).
@@ -932,22 +939,18 @@ Section Ctl.
     rewrite run_stmt_if in Hrun. cbv zeta in Hrun.
     destruct (run_brs s (st_ctx st) (d_promo (st_ctx st)) (st_acc st) brs) as [[[[s2 kids] p1] a1]|] eqn:Eb; [|discriminate].
     destruct (Hbrs L (st_decls st ++ outer) s (st_ctx st) _ _ s2 kids p1 a1 Hs
-                (fun p' a' => wf_child L outer base st p' a' Hw) Hgb Eb) as (Hs2 & Hk2 & Hkids).
+                (fun p' a' => wf_child L outer base st p' a' Hw) Hgb Eb) as (Hs2 & Hk2 & _).
     destruct els as [|b].
     - cbv iota beta in Hrun.
-      pose proof (wf_if_promote L outer base st kids p1 a1 Hw Hkids) as Hwf.
+      pose proof (wf_if_promote L outer base st kids p1 a1 Hw Hge) as Hwf.
       destruct (promote_collect (d_decl (st_ctx st)) kids []) as [|o0 orest]; inversion Hrun; subst s1 st1;
         (split; [exact Hs2 | split; [exact Hwf | exact Hk2]]).
-    - cbn [PM_oblock] in Hels.
+    - cbn [PM_oblock] in Hels. apply andb_true_iff in Hge as [Hge Hho].
       destruct (run_b s2 (mk_bstate (mk_dctx (d_types (st_ctx st)) (d_decl (st_ctx st)) p1) [] a1) b) as [[s3 stc]|] eqn:Ee; [|discriminate].
       destruct (Hels L (st_decls st ++ outer) (d_decl (st_ctx st)) s2 _ s3 stc Hs2 (wf_child L outer base st p1 a1 Hw) Hge Ee)
-        as (Hs3 & Hw3 & Hk3). cbn [st_acc] in Hk3.
-      assert (Hkids2 : forall kid, In kid (kids ++ [st_ctx stc]) ->
-                exists stc0, st_ctx stc0 = kid /\ wf L (st_decls st ++ outer) (d_decl (st_ctx st)) stc0).
-      { intros kid Hin. apply in_app_iff in Hin. destruct Hin as [Hin|[<-|[]]]; [apply Hkids; exact Hin|].
-        exists stc. split; [reflexivity | exact Hw3]. }
+        as (Hs3 & _ & Hk3). cbn [st_acc] in Hk3.
       pose proof (wf_if_promote L outer base st (kids ++ [st_ctx stc])
-                    (share_back (d_promo (st_ctx st)) (d_promo (st_ctx stc))) (st_acc stc) Hw Hkids2) as Hwf.
+                    (share_back (d_promo (st_ctx st)) (d_promo (st_ctx stc))) (st_acc stc) Hw Hho) as Hwf.
       assert (Hk : keeps (st_acc st) (st_acc stc)) by (eapply keeps_trans; eassumption).
       destruct (promote_collect (d_decl (st_ctx st)) (kids ++ [st_ctx stc]) []) as [|o0 orest]; inversion Hrun; subst s1 st1;
         (split; [exact Hs3 | split; [exact Hwf | exact Hk]]).
@@ -963,8 +966,8 @@ Section Ctl.
     destruct (Hb L (st_decls st ++ outer) (d_decl (st_ctx st)) s _ s2 stc Hs (wf_child L outer base st _ _ Hw) Hgb E)
       as (Hs2 & Hwc & Hk). cbn [st_acc] in Hk.
     inversion Hrun; subst s1 st1. split; [exact Hs2|]. split.
-    - apply (wf_loop_promote L L outer (st_decls st ++ outer) base st stc (d_decl (st_ctx st)) (st_acc stc) Hw Hwc).
-      + intros x Hx. split; [exact Hx | reflexivity].
+    - apply (wf_loop_promote L outer base st (st_ctx stc) (d_decl (st_ctx st)) (st_acc stc) Hw).
+      + intros x Hx. exact Hx.
       + exact Hpo.
     - unfold loop_promote. destruct (new_names (d_decl (st_ctx st)) (st_ctx stc)); exact Hk.
   Qed.
@@ -979,10 +982,8 @@ Section Ctl.
     destruct (Hb (tset L i TInt) ((i, CInt) :: st_decls st ++ outer) (add_name (d_decl (st_ctx st)) i) s _ s2 stc Hs
                 (wf_child_for L outer base st i _ _ Hw) Hgb E) as (Hs2 & Hwc & Hk). cbn [st_acc] in Hk.
     inversion Hrun; subst s1 st1. split; [exact Hs2|]. split.
-    - apply (wf_loop_promote L (tset L i TInt) outer ((i, CInt) :: st_decls st ++ outer) base st stc
-               (add_name (d_decl (st_ctx st)) i) (st_acc stc) Hw Hwc).
-      + intros x Hx. rewrite tmem_add_name in Hx. apply orb_false_iff in Hx as [Hx1 Hx2].
-        split; [exact Hx1|]. rewrite tlookup_tset, Hx2. reflexivity.
+    - apply (wf_loop_promote L outer base st (st_ctx stc) (add_name (d_decl (st_ctx st)) i) (st_acc stc) Hw).
+      + intros x Hx. rewrite tmem_add_name in Hx. apply orb_false_iff in Hx as [Hx1 _]. exact Hx1.
       + exact Hpo.
     - unfold loop_promote. destruct (new_names (add_name (d_decl (st_ctx st)) i) (st_ctx stc)); exact Hk.
   Qed.
@@ -1007,7 +1008,7 @@ Section Ctl.
       + destruct (return_step_gen L outer base s st e s1 st1 Hs Hw Hg Hrun) as (H1 & H2 & H3 & H4).
         split; [exact H1 | split; [exact H2|]]. split; [rewrite H3; apply incl_appl, incl_refl | split; [exact H4|]].
         rewrite H3. intros t Ht. apply in_app_iff in Ht. destruct Ht as [Ht|[<-|[]]]; [left; exact Ht | right].
-        apply (ret_ok_parts _ _ _ Hg).
+        cbn [gd_stmt] in Hg. unfold ret_ok in Hg. apply andb_true_iff in Hg as [_ Hsc]. exact Hsc.
       + cbn [run_stmt] in Hrun. unfold do_return in Hrun. destruct (negb (a_fn (st_acc st))); [discriminate|].
         inversion Hrun; subst. split; [exact Hs | split; [exact Hw | apply keeps_refl]].
     - (* SAssignR *) intros x r L outer base s st s1 st1 Hs Hw Hg Hrun.
@@ -1043,20 +1044,40 @@ Section Ctl.
     env_lab L rho1 /\ Forall (ev_ok L (a_rets a2)) tr.
   Definition PS_oblock (o : oblock) : Prop := match o with ONone => True | OSome b => PS_block b end.
 
-  Lemma store_sound L G x e t rho v :
-    tlookup x L = Some t -> expr_ok C F A L G e t = true -> env_lab L rho -> peval rho e = Ok v ->
-    env_lab L ((x, v) :: rho) /\ ev_ok L [] (TAssign x v).
+  (* the value of an expression inside [expr_ok] is held by the label inferred for it at that line *)
+  Lemma value_sound L G e rho v :
+    expr_ok C F A L G e = true -> env_lab L rho -> peval rho e = Ok v -> repr (ety F A C G e) v.
   Proof.
-    intros HL Hok Hrho Hev. destruct (expr_ok_parts _ _ _ _ Hok) as (_ & HgL & _ & HtL).
-    destruct (typed_some _ _ (expr_ok_typed _ _ _ _ Hok)) as [G1 Hi]. rewrite HtL in Hi.
-    destruct (infer_s_sound _ _ _ _ _ _ _ _ _ (env_lab_sound _ _ Hrho) HgL Hi Hev) as [Hr _].
-    split; [eapply env_lab_bind; eassumption | exists t; split; assumption].
+    unfold expr_ok. intros Hok Hrho Hev.
+    apply andb_true_iff in Hok as [Hok Hway]. apply andb_true_iff in Hok as [Hg Hty].
+    apply orb_true_iff in Hway as [Hreads|Hfix].
+    - (* every name e reads carries its declared label: evaluate in the environment masked to those names *)
+      destruct (typed_some _ _ Hty) as [G1 Hi].
+      assert (Hes : env_sound G (mask (same_lab G L) rho)).
+      { intros y w Hl. apply lookup_mask_some in Hl as [Hsame Hl].
+        destruct (Hrho y w Hl) as (t0 & HL & Hr). unfold same_lab in Hsame. rewrite HL in Hsame.
+        unfold tget. destruct (tlookup y G) as [a|]; [|discriminate]. apply ty_eqb_eq in Hsame. subst a. exact Hr. }
+      rewrite <- (peval_mask (same_lab G L) rho e Hreads) in Hev.
+      destruct (infer_s_sound _ _ _ _ _ _ _ _ _ Hes Hg Hi Hev) as [Hr _]. exact Hr.
+    - (* typing e under the declared labels gives the same label *)
+      apply andb_true_iff in Hfix as [Hfix Heq]. apply andb_true_iff in Hfix as [HgL HtyL]. apply ty_eqb_eq in Heq.
+      destruct (typed_some _ _ HtyL) as [G1 Hi]. rewrite Heq.
+      destruct (infer_s_sound _ _ _ _ _ _ _ _ _ (env_lab_sound _ _ Hrho) HgL Hi Hev) as [Hr _]. exact Hr.
   Qed.
 
+  Lemma store_sound L G b x e rho v :
+    expr_ok C F A L G e = true -> store_ok L b x (ety F A C G e) = true -> env_lab L rho -> peval rho e = Ok v ->
+    env_lab L ((x, v) :: rho) /\ ev_ok L [] (TAssign x v).
+  Proof.
+    intros Hex Hst Hrho Hev. pose proof (value_sound L G e rho v Hex Hrho Hev) as Hr.
+    destruct (store_ok_sub _ _ _ _ Hst) as (t0 & HL & Hs0).
+    pose proof (sub_ty_repr _ _ _ Hs0 Hr) as Hr0.
+    split; [eapply env_lab_bind; eassumption | exists t0; split; assumption].
+  Qed.
 
   Lemma tuple_sem L G rho0 : env_lab L rho0 -> forall xs es vs rho,
     length xs = length es ->
-    forallb (fun xe => assign_ok C F A L G (fst xe) (snd xe)) (combine xs es) = true ->
+    forallb (fun xe => expr_ok C F A L G (snd xe) && lab_is L (fst xe) (ety F A C G (snd xe))) (combine xs es) = true ->
     evals rho0 es = Ok vs -> env_lab L rho ->
     env_lab L (bind_all xs vs rho) /\
     Forall (ev_ok L []) (map (fun xv => TAssign (fst xv) (snd xv)) (combine xs vs)).
@@ -1064,14 +1085,13 @@ Section Ctl.
     intros Hr0. induction xs as [|x xr IH]; intros [|e er] vs rho Hlen Hall Hev Hrho; cbn in Hlen; try discriminate.
     - cbn in Hev. inversion Hev; subst. cbn. split; [exact Hrho | constructor].
     - cbn [combine forallb fst snd] in Hall. apply andb_true_iff in Hall as [Hok Hall].
+      apply andb_true_iff in Hok as [Hex Hlab].
       cbn [evals] in Hev. destruct (peval rho0 e) as [v|] eqn:Ev; [|discriminate].
       destruct (evals rho0 er) as [vr|] eqn:Er; [|discriminate]. inversion Hev; subst vs.
-      unfold assign_ok in Hok. destruct (tlookup x L) as [t|] eqn:HL; [|discriminate].
-      destruct (store_sound L G x e t rho0 v HL Hok Hr0 Ev) as [_ (t1 & Ht1 & Hrepr)].
-      rewrite HL in Ht1. inversion Ht1; subst t1.
+      pose proof (value_sound L G e rho0 v Hex Hr0 Ev) as Hrepr. apply lab_is_true in Hlab.
       cbn [bind_all combine map fst snd].
-      destruct (IH er vr ((x, v) :: rho) ltac:(lia) Hall Er (env_lab_bind L rho x v t Hrho HL Hrepr)) as [H1 H2].
-      split; [exact H1 | constructor; [exists t; split; assumption | exact H2]].
+      destruct (IH er vr ((x, v) :: rho) ltac:(lia) Hall Er (env_lab_bind L rho x v _ Hrho Hlab Hrepr)) as [H1 H2].
+      split; [exact H1 | constructor; [eexists; split; eassumption | exact H2]].
   Qed.
 
   Lemma PS_bcons x r : PS_stmt x -> PS_block r -> PS_block (BCons x r).
@@ -1122,34 +1142,25 @@ Section Ctl.
     destruct (proj1 (proj2 (proj2 model_keeps_wf)) brs L (st_decls st ++ outer) s (st_ctx st) _ _ s2 kids p1 a1 Hs
                 (fun p' a' => wf_child L outer base st p' a' Hw) Hgb Eb) as (Hs2 & Hk2 & _).
     cbn [exec_stmt] in Hex. destruct (next orc) as [k o1].
-    (* the accumulator after the whole statement *)
-    assert (Hacc : exists a2, st_acc st1 = a2 /\ incl (a_rets a1) (a_rets a2) /\
-              match els with
-              | ONone => True
-              | OSome b => forall s3 stc, run_b s2 (mk_bstate (mk_dctx (d_types (st_ctx st)) (d_decl (st_ctx st)) p1) [] a1) b = Some (s3, stc) -> a2 = st_acc stc
-              end).
-    { destruct els as [|b].
-      - cbv iota beta in Hrun. exists a1.
-        destruct (promote_collect (d_decl (st_ctx st)) kids []); inversion Hrun; subst; (split; [reflexivity | split; [apply incl_refl | exact I]]).
-      - destruct (run_b s2 (mk_bstate (mk_dctx (d_types (st_ctx st)) (d_decl (st_ctx st)) p1) [] a1) b) as [[s3 stc]|] eqn:Ee; [|discriminate].
-        cbn [PM_oblock] in *.
-        destruct (proj1 (proj2 model_keeps_wf) b L (st_decls st ++ outer) (d_decl (st_ctx st)) s2 _ s3 stc Hs2 (wf_child L outer base st p1 a1 Hw) Hge Ee)
-          as (_ & _ & Hk3). cbn [st_acc] in Hk3.
-        exists (st_acc stc).
-        destruct (promote_collect (d_decl (st_ctx st)) (kids ++ [st_ctx stc]) []); inversion Hrun; subst;
-          (split; [reflexivity | split; [apply Hk3 | intros s4 stc4 H4; inversion H4; reflexivity]]). }
-    destruct Hacc as (a2 & Ha2 & Hincl & Helse). rewrite Ha2.
-    destruct (exec_branches o1 rho k brs) as [r|] eqn:Ebr.
-    - subst r.
-      destruct (Hbrs L (st_decls st ++ outer) s (st_ctx st) _ _ s2 kids p1 a1 k _ _ _ _ _ _ Hs
-                  (fun p' a' => wf_child L outer base st p' a' Hw) Hgb Eb Hrho Ebr) as [Hrho1 Hev1].
-      split; [exact Hrho1|]. eapply Forall_impl; [|exact Hev1]. intro e. apply ev_ok_mono. exact Hincl.
-    - destruct els as [|b].
+    destruct els as [|b].
+    - cbv iota beta in Hrun.
+      assert (Ha : st_acc st1 = a1) by (destruct (promote_collect (d_decl (st_ctx st)) kids []); inversion Hrun; reflexivity).
+      rewrite Ha. destruct (exec_branches o1 rho k brs) as [r|] eqn:Ebr.
+      + subst r. exact (Hbrs L (st_decls st ++ outer) s (st_ctx st) _ _ s2 kids p1 a1 k _ _ _ _ _ _ Hs
+                          (fun p' a' => wf_child L outer base st p' a' Hw) Hgb Eb Hrho Ebr).
       + inversion Hex; subst. split; [exact Hrho | constructor].
-      + cbn [PS_oblock] in Hels.
-        destruct (run_b s2 (mk_bstate (mk_dctx (d_types (st_ctx st)) (d_decl (st_ctx st)) p1) [] a1) b) as [[s3 stc]|] eqn:Ee; [|discriminate].
-        rewrite (Helse s3 stc eq_refl).
-        exact (Hels L (st_decls st ++ outer) (d_decl (st_ctx st)) s2 _ s3 stc _ _ _ _ _ _ Hs2 (wf_child L outer base st p1 a1 Hw) Hge Ee Hrho Hex).
+    - cbn [PS_oblock] in Hels. apply andb_true_iff in Hge as [Hge _].
+      destruct (run_b s2 (mk_bstate (mk_dctx (d_types (st_ctx st)) (d_decl (st_ctx st)) p1) [] a1) b) as [[s3 stc]|] eqn:Ee; [|discriminate].
+      destruct (proj1 (proj2 model_keeps_wf) b L (st_decls st ++ outer) (d_decl (st_ctx st)) s2 _ s3 stc Hs2 (wf_child L outer base st p1 a1 Hw) Hge Ee)
+        as (_ & _ & Hk3). cbn [st_acc] in Hk3.
+      assert (Ha : st_acc st1 = st_acc stc)
+        by (destruct (promote_collect (d_decl (st_ctx st)) (kids ++ [st_ctx stc]) []); inversion Hrun; reflexivity).
+      rewrite Ha. destruct (exec_branches o1 rho k brs) as [r|] eqn:Ebr.
+      + subst r.
+        destruct (Hbrs L (st_decls st ++ outer) s (st_ctx st) _ _ s2 kids p1 a1 k _ _ _ _ _ _ Hs
+                    (fun p' a' => wf_child L outer base st p' a' Hw) Hgb Eb Hrho Ebr) as [Hrho1 Hev1].
+        split; [exact Hrho1|]. eapply Forall_impl; [|exact Hev1]. intro e. apply ev_ok_mono. apply Hk3.
+      + exact (Hels L (st_decls st ++ outer) (d_decl (st_ctx st)) s2 _ s3 stc _ _ _ _ _ _ Hs2 (wf_child L outer base st p1 a1 Hw) Hge Ee Hrho Hex).
   Qed.
 
   Lemma PS_while body : PS_block body -> PS_stmt (SWhile body).
@@ -1215,36 +1226,36 @@ Section Ctl.
   Proof.
     apply stmt_block_mutind.
     - (* SAssign *) intros x e L outer base s st s1 st1 orc rho orc1 rho1 tr ret Hs Hw Hg Hrun Hrho Hex.
-      cbn [gd_stmt] in Hg. unfold assign_ok in Hg. destruct (tlookup x L) as [t|] eqn:HL; [|discriminate].
+      cbn [gd_stmt] in Hg. unfold assign_ok in Hg. apply andb_true_iff in Hg as [Hgx Hgs].
       cbn [exec_stmt] in Hex. destruct (peval rho e) as [v|] eqn:Ev; [|discriminate]. inversion Hex; subst.
-      destruct (store_sound L _ x e t rho v HL Hg Hrho Ev) as [H1 H2].
+      destruct (store_sound L _ _ x e rho v Hgx Hgs Hrho Ev) as [H1 H2].
       split; [exact H1 | constructor; [|constructor]]. eapply ev_ok_mono; [|exact H2]. intros y [].
     - (* SAug *) intros x op e L outer base s st s1 st1 orc rho orc1 rho1 tr ret Hs Hw Hg Hrun Hrho Hex.
       cbn [gd_stmt] in Hg. apply andb_true_iff in Hg as [_ Hg].
-      unfold assign_ok in Hg. destruct (tlookup x L) as [t|] eqn:HL; [|discriminate].
+      unfold assign_ok in Hg. apply andb_true_iff in Hg as [Hgx Hgs].
       cbn [exec_stmt] in Hex. destruct (peval rho (EBin op (EName x) e)) as [v|] eqn:Ev; [|discriminate]. inversion Hex; subst.
-      destruct (store_sound L _ x _ t rho v HL Hg Hrho Ev) as [H1 H2].
+      destruct (store_sound L _ _ x _ rho v Hgx Hgs Hrho Ev) as [H1 H2].
       split; [exact H1 | constructor; [|constructor]]. eapply ev_ok_mono; [|exact H2]. intros y [].
     - intros brs Hbrs els Hels. apply PS_if; assumption.
     - intros body Hb. apply PS_while; exact Hb.
     - intros i body Hb. apply PS_for; exact Hb.
     - (* SReturn *) intros [e|] L outer base s st s1 st1 orc rho orc1 rho1 tr ret Hs Hw Hg Hrun Hrho Hex.
       + cbn [gd_stmt] in Hg. destruct (return_step_gen L outer base s st e s1 st1 Hs Hw Hg Hrun) as (_ & _ & H3 & _).
-        destruct (ret_ok_parts _ _ _ Hg) as (_ & HgL & Hsc & _).
-        destruct (typed_some _ _ (ret_ok_typed _ _ _ Hg)) as [G1 Hi].
-        cbn [exec_stmt] in Hex. destruct (peval rho e) as [v|] eqn:Ev; [|discriminate]. inversion Hex; subst.
-        destruct (infer_s_sound _ _ _ _ _ _ _ _ _ (env_lab_sound _ _ Hrho) HgL Hi Ev) as [Hr _].
+        unfold ret_ok in Hg. apply andb_true_iff in Hg as [Hgx Hsc].
+        cbn [exec_stmt] in Hex. destruct (peval rho e) as [v|] eqn:Ev; [|discriminate].
+        pose proof (value_sound L _ e rho v Hgx Hrho Ev) as Hr. inversion Hex; subst.
         split; [exact Hrho | constructor; [|constructor]].
-        exists (ety F A C L e). split; [rewrite H3; apply in_or_app; right; left; reflexivity | split; assumption].
+        exists (ety F A C (d_types (st_ctx st)) e). split; [rewrite H3; apply in_or_app; right; left; reflexivity | split; assumption].
       + cbn [exec_stmt] in Hex. inversion Hex; subst. split; [exact Hrho | constructor].
     - (* SAssignR *) intros x r L outer base s st s1 st1 orc rho orc1 rho1 tr ret Hs Hw Hg Hrun Hrho Hex.
-      cbn [gd_stmt] in Hg. unfold assignr_ok in Hg. destruct (tlookup x L) as [t|] eqn:HL; [|discriminate].
-      apply andb_true_iff in Hg as [Hg HtL]. apply andb_true_iff in Hg as [Hg _]. apply andb_true_iff in Hg as [Hg Hty].
-      apply andb_true_iff in Hg as [_ HgL]. apply ty_eqb_eq in HtL. unfold rty in HtL.
-      destruct (infer_rhs_s F A C L r) as [[t1 G1]|] eqn:Ei; [|discriminate]. subst t1.
+      cbn [gd_stmt] in Hg. unfold assignr_ok in Hg.
+      apply andb_true_iff in Hg as [Hg Hst]. apply andb_true_iff in Hg as [Hg Heq]. apply andb_true_iff in Hg as [Hg HtyL].
+      apply andb_true_iff in Hg as [_ HgL]. apply ty_eqb_eq in Heq. unfold rty at 2 in Heq.
+      destruct (infer_rhs_s F A C L r) as [[t1 G1]|] eqn:Ei; [|discriminate]. rewrite Heq in Hst.
       cbn [exec_stmt] in Hex. destruct (eval_rhs rho r) as [v|] eqn:Ev; [|discriminate]. inversion Hex; subst.
       destruct (rhs_sound F A C r _ _ _ _ _ (env_lab_sound _ _ Hrho) HgL Ei Ev) as [Hr _].
-      split; [eapply env_lab_bind; eassumption | constructor; [|constructor]]. exists t. split; assumption.
+      destruct (store_ok_sub _ _ _ _ Hst) as (t0 & HL & Hs0). pose proof (sub_ty_repr _ _ _ Hs0 Hr) as Hr0.
+      split; [eapply env_lab_bind; eassumption | constructor; [|constructor]]. exists t0. split; assumption.
     - (* STuple *) intros xs es L outer base s st s1 st1 orc rho orc1 rho1 tr ret Hs Hw Hg Hrun Hrho Hex.
       cbn [gd_stmt] in Hg. apply andb_true_iff in Hg as [Hlen Hall]. apply Nat.eqb_eq in Hlen.
       cbn [exec_stmt] in Hex. rewrite Hlen, Nat.eqb_refl in Hex. cbn [negb] in Hex.
@@ -1276,7 +1287,7 @@ Lemma wf_same_ctx L outer base st st' :
   wf L outer base st -> d_types (st_ctx st') = d_types (st_ctx st) -> d_decl (st_ctx st') = d_decl (st_ctx st) ->
   st_decls st' = st_decls st -> wf L outer base st'.
 Proof.
-  intros [Hs Hl Hd Ho Hf Hb] HG Hdc Hds. constructor; rewrite ?HG, ?Hdc, ?Hds; assumption.
+  intros [Ht Hl Ho Hf Hb] HG Hdc Hds. constructor; rewrite ?HG, ?Hdc, ?Hds; assumption.
 Qed.
 
 Lemma run_item_stmt C ps s : is_tuple s = false ->
@@ -1376,10 +1387,15 @@ Proof.
   constructor; cbn.
   - intros x t H; discriminate H.
   - intro x; reflexivity.
-  - intros x t H; discriminate H.
   - intros x c H; discriminate H.
   - intros x [].
   - intros x H; discriminate H.
+Qed.
+
+Lemma all_labelled_spec L G x t : all_labelled L G = true -> tlookup x L = Some t -> exists u, tlookup x G = Some u.
+Proof.
+  unfold all_labelled. rewrite forallb_forall. intros H HL. apply tlookup_In in HL. specialize (H _ HL). cbn [fst] in H.
+  destruct (tlookup x G) as [u|]; [exists u; reflexivity | discriminate].
 Qed.
 
 (* Every value any path of a script (statements at column 0 with their nested if / elif / else, while, for blocks, then
@@ -1393,7 +1409,8 @@ Theorem script_covers :
     Forall (ev_decl (p_loop ps ++ p_globals ps)) tr.
 Proof.
   intros C pre main ps orc orc1 rho tr ret Hg Hrun Hex.
-  unfold script_guard in Hg. rewrite Hrun in Hg. set (L := d_types (p_ctx ps)) in *.
+  unfold script_guard in Hg. rewrite Hrun in Hg. set (L := decl_tab [] (p_labels ps)) in *.
+  apply andb_true_iff in Hg as [Hall Hg].
   unfold script_items in *. rewrite run_items_fold, fold_left_app in Hrun.
   destruct (fold_left (step_items C) (map IStmt pre) (Some pstate0)) as [ps1|] eqn:E1; [|cbn in Hrun; discriminate].
   destruct (pre_items_run C L pre [ILoop main] pstate0 ps1 (proj1 (conj (conj eq_refl (conj eq_refl (conj eq_refl eq_refl))) I)) (wf0 L) Hg E1)
@@ -1410,7 +1427,9 @@ Proof.
   destruct (proj1 (proj2 (model_keeps_wf fenv (call_dyn C) C [] [] nofun (dyn_call_ok C))) main L _ _ _ _ _ _ Hnf1 Hwl Hgm E2)
     as (_ & Hw2 & _).
   assert (HD : forall x t, tlookup x L = Some t -> tlookup x (st_decls st2 ++ p_globals ps1) = Some (cpp_type t)).
-  { intros x t Ht. pose proof (wf_decl _ _ _ _ Hw2 x t Ht) as H. rewrite app_nil_r in H. exact H. }
+  { intros x t Ht. destruct (all_labelled_spec _ _ x t Hall Ht) as [u Hu].
+    destruct (wf_typ _ _ _ _ Hw2 x u Hu) as (t0 & HL0 & _ & Hd0). rewrite Ht in HL0. inversion HL0; subst t0.
+    rewrite app_nil_r in Hd0. exact Hd0. }
   unfold exec_prog in Hex.
   destruct (exec_block orc [] (block_of pre)) as [[[[o1 r1] t1] b1]|] eqn:Ep; [|discriminate].
   assert (Hrho0 : env_lab L []) by (intros x v H; discriminate H).
@@ -1444,20 +1463,26 @@ Lemma static_call_ok F A : forall (d : list ident) (sp : unit * option pmap) (G 
   (fun _ : unit => True) (fst (fst (call_st F A d sp G f sg))) /\ snd (call_st F A d sp G f sg) = resolve_call F A f sg.
 Proof. intros d sp G f sg _. unfold call_st. split; [exact I | reflexivity]. Qed.
 
+Lemma decl_tab_base G0 labels x t : tlookup x G0 = Some t -> tlookup x (decl_tab G0 labels) = Some t.
+Proof.
+  unfold decl_tab. match goal with |- context [fold_left _ ?l0 G0] => generalize l0 end. intro l.
+  revert G0. induction l as [|[y u] r IH]; intros G0 H; cbn [fold_left fst]; [exact H|].
+  apply IH. destruct (tlookup y G0); [exact H|]. rewrite tlookup_app, H. reflexivity.
+Qed.
+
 Lemma wf_fn_start L c a :
-  ctx_wf c = true -> sub_env (d_types c) L = true ->
+  ctx_wf c = true -> (forall x t, tlookup x (d_types c) = Some t -> tlookup x L = Some t) ->
   wf L (lab_decls (d_types c)) (d_decl c) (mk_bstate c [] a).
 Proof.
   intros Hc Hs. unfold ctx_wf in Hc. apply andb_true_iff in Hc as [Hc1 Hc2].
-  rewrite forallb_forall in Hc1, Hc2. unfold sub_env in Hs. rewrite forallb_forall in Hs.
+  rewrite forallb_forall in Hc1, Hc2.
   constructor; cbn [st_ctx st_decls app].
-  - intros x t Ht. apply tlookup_In in Ht. specialize (Hs _ Ht). cbn [fst snd] in Hs.
-    destruct (tlookup x L) as [t0|]; [|discriminate]. apply ty_eqb_eq in Hs. subst. reflexivity.
+  - intros x t Ht. exists t. split; [apply Hs; exact Ht | split; [apply sub_ty_refl|]].
+    unfold lab_decls. rewrite tlookup_map_snd, Ht. reflexivity.
   - intro x. destruct (tlookup x (d_types c)) as [t|] eqn:E.
     + apply tlookup_In in E. exact (Hc1 _ E).
     + destruct (tmem x (d_decl c)) eqn:Em; [|reflexivity].
       apply tmem_In in Em. specialize (Hc2 _ Em). rewrite E in Hc2. discriminate.
-  - intros x t Ht. unfold lab_decls. rewrite tlookup_map_snd, Ht. reflexivity.
   - intros x c0 H. unfold lab_decls in H. rewrite tlookup_map_snd in H.
     destruct (tlookup x (d_types c)) as [t|] eqn:E; [|discriminate]. apply tlookup_In in E. exact (Hc1 _ E).
   - intros x [].
@@ -1489,13 +1514,13 @@ Proof.
                   (fold_left add_name (map fst params) (d_decl cur)) (d_promo cur)) with (fn_ctx cur params sg) in Hp.
   set (c0 := fn_ctx cur params sg) in *.
   destruct (run_block unit (call_st F0 (fe_alias fe)) C tt (mk_bstate c0 [] (mk_acc [] [] true)) body) as [[u st1]|] eqn:Erun; [|discriminate].
-  set (L := d_types (st_ctx st1)) in *.
-  apply andb_true_iff in Hg as [Hg Hgd]. apply andb_true_iff in Hg as [Hcw Hsub].
-  pose proof (wf_fn_start L c0 (mk_acc [] [] true) Hcw Hsub) as Hw0.
+  set (L := decl_tab (d_types c0) (a_labels (st_acc st1))) in *.
+  apply andb_true_iff in Hg as [Hg Hgd]. apply andb_true_iff in Hg as [Hg Hpar]. apply andb_true_iff in Hg as [Hcw Hall].
+  pose proof (wf_fn_start L c0 (mk_acc [] [] true) Hcw (fun x t H => decl_tab_base (d_types c0) (a_labels (st_acc st1)) x t H)) as Hw0.
   destruct (proj1 (proj2 (model_keeps_wf unit (call_st F0 (fe_alias fe)) C F0 (fe_alias fe) (fun _ => True) (static_call_ok F0 (fe_alias fe))))
               body L _ _ tt _ u st1 I Hw0 Hgd Erun) as (_ & Hw1 & Hk1).
   assert (Hrho0 : env_lab L rho).
-  { intros x v Hl. destruct (Hrho x v Hl) as (t & Ht & Hr). exists t. split; [apply (wf_sub _ _ _ _ Hw0); exact Ht | exact Hr]. }
+  { intros x v Hl. destruct (Hrho x v Hl) as (t & Ht & Hr). exists t. split; [apply decl_tab_base; exact Ht | exact Hr]. }
   destruct (proj1 (proj2 (values_within_labels unit (call_st F0 (fe_alias fe)) C F0 (fe_alias fe) (fun _ => True) (static_call_ok F0 (fe_alias fe))))
               body L _ _ tt _ u st1 _ _ _ _ _ _ I Hw0 Hgd Erun Hrho0 Hex) as [_ Hev].
   destruct (merge_return_types (a_rets (st_acc st1)) false) as [merged|] eqn:Em; [|discriminate].
@@ -1506,24 +1531,21 @@ Proof.
   { rewrite forallb_forall. intros t Ht. destruct Hk1 as (_ & _ & H3). destruct (H3 t Ht) as [[]|Hs]. exact Hs. }
   split.
   - eapply Forall_impl; [|exact Hev]. intros e He. destruct e as [x v|i v|v]; cbn [ev_ok fn_ev fd_locals fd_ret] in He |- *.
-    + destruct He as (t & Ht & Hr). exists (cpp_type t). split; [apply (wf_decl _ _ _ _ Hw1); exact Ht | apply repr_crepr; exact Hr].
+    + destruct He as (t & Ht & Hr). exists (cpp_type t). split; [|apply repr_crepr; exact Hr].
+      destruct (all_labelled_spec _ _ x t Hall Ht) as [u0 Hu0].
+      destruct (wf_typ _ _ _ _ Hw1 x u0 Hu0) as (t0 & HL0 & _ & Hd0). fold L in HL0. rewrite Ht in HL0. inversion HL0; subst t0. exact Hd0.
     + apply (repr_crepr TInt). exact He.
     + destruct He as (t & Hin & _ & Hr). apply repr_crepr. apply (sub_ty_repr t); [|exact Hr].
       eapply merge_ret_upper; [exact Em | exact Hsc | exact Hin].
   - intros p c Hin. apply in_map_iff in Hin as ([[p0 an] t] & Heq & Hin). cbn [fst snd] in Heq. inversion Heq; subst p c.
-    f_equal. apply in_combine_r in Hin as Hin2. apply in_combine_l in Hin as Hin1.
-    apply in_map_iff in Hin2 as ([q aq] & Ht & Hq). cbn [fst] in Ht.
-    (* the label read at the end of the body: the one the signature gave, since var_types only grew *)
+    f_equal. apply in_combine_l in Hin as Hin1.
     assert (Hpos : forall l : list (ident * option text),
-              In ((p0, an), t) (combine l (map (fun pa : ident * option text => tget L (fst pa)) l)) -> t = tget L p0).
+              In ((p0, an), t) (combine l (map (fun pa : ident * option text => tget (d_types (st_ctx st1)) (fst pa)) l)) ->
+              t = tget (d_types (st_ctx st1)) p0).
     { clear. induction l as [|a l IH]; intro Hin; cbn in Hin; [contradiction|].
       destruct Hin as [H|H]; [inversion H; subst; reflexivity | exact (IH H)]. }
     rewrite (Hpos params Hin).
-    assert (Hdecl : tmem p0 (d_decl c0) = true).
-    { unfold c0, fn_ctx. cbn [d_decl]. rewrite tmem_add_names. apply orb_true_iff. right. apply tmem_In.
-      apply (in_map fst) in Hin1. exact Hin1. }
-    destruct (wf_declared_labelled _ _ _ _ _ Hw0 Hdecl) as [t0 Ht0]. cbn [st_ctx] in Ht0.
-    unfold tget. rewrite Ht0. rewrite (wf_sub _ _ _ _ Hw0 p0 t0 Ht0). reflexivity.
+    rewrite forallb_forall in Hpar. specialize (Hpar _ Hin1). cbn [fst] in Hpar. apply ty_eqb_eq in Hpar. exact Hpar.
 Qed.
 
 (* ------------------------------------------------------------------ witnesses *)
@@ -1588,6 +1610,18 @@ Lemma fn_guard_boundary :
   fn_guard [(w_x, FVariants [])] [] None fresh_cur [(w_p, None)] [TFloat] relabel_body = false.
 Proof. vm_compute. repeat split; reflexivity. Qed.
 
+
+Lemma narrowing_nonvacuous :
+  script_guard None narrow_pre BNil = true /\ script_guard None narrow_read_pre BNil = false /\
+  (exists ps, run_items None (script_items narrow_pre BNil) = Some ps /\
+              p_globals ps = [(w_a, CFloat); (w_b, CInt); (w_x, CFloat)]) /\
+  (exists rho tr, exec_prog [0; 0]%nat narrow_pre BNil = Ok ([], rho, tr, false) /\
+                  In (TAssign w_a (VInt 1)) tr /\ In (TAssign w_a (VInt 3)) tr /\ In (TAssign w_x (VFloat 1)) tr).
+Proof.
+  split; [vm_compute; reflexivity|]. split; [vm_compute; reflexivity|]. split.
+  - eexists. split; [vm_compute; reflexivity | reflexivity].
+  - eexists. eexists. split; [vm_compute; reflexivity|]. cbn. tauto.
+Qed.
 
 (* ------------------------------------------------------------------ the two halves, as exported statements *)
 Theorem hoisting_keeps_declarations_coherent :
